@@ -21,7 +21,12 @@ package handlers
 // be 0 again at return on every path (including cancellation while queued).
 //@ type ServerHandler semaphore catLimiter
 //@ type ServerHandler semaphore tailLimiter
+// Readers are made only here, for the path that was checked, and read is
+// reached only through the permission check.
 //@ func (*readCommand).read
+//@   callers-only (*readCommand).readFileIfPermissions, (*readCommand).Start
+//@   at-call NewCatFile [reads-the-checked-path] arg0 == path
+//@   at-call NewTailFile [reads-the-checked-path] arg0 == path
 //@   requires [regex-usable] len(re.flags) >= 1 && implies(re.flags[0] == regex.Default || re.flags[0] == regex.Invert, re.re != nil)
 //@   chaninv lines [line-wellformed] elem != nil && elem.Content != nil
 //@   loop 1 invariant [lines-carry] carries(lines, "line-wellformed")
@@ -59,7 +64,12 @@ package handlers
 //@ func (*readCommand).makeGlobID
 //@   requires [same-depth] uf_strcount(path, "/") >= uf_strcount(glob, "/")
 //@   assigns nothing
+// The permission check dominates every reader: read is called only after
+// HasFilePermission(path, "readfiles") returned true for that very path.
 //@ func (*readCommand).readFileIfPermissions
+//@   ghost-init g_permitted == 0
+//@   at-call ).read [checked-first] g_permitted == 1 && arg3 == g_permittedStr
+//@   at-call HasFilePermission [readfiles-on-this-path] arg1 == path && arg2 == "readfiles"
 //@   requires [regex-usable] len(re.flags) >= 1 && implies(re.flags[0] == regex.Default || re.flags[0] == regex.Invert, re.re != nil)
 //@   requires [same-depth] uf_strcount(path, "/") >= uf_strcount(glob, "/")
 //@   requires [wg] wg != nil
@@ -152,3 +162,10 @@ package handlers
 //@   requires [argc-is-len] argc == len(args)
 //@   at-call regex.Deserialize [regex-verbatim] args[0] + " " + args[1] + " " + arg0 == joinSp(args)
 //@   at-call readGlob [file-is-second-word] arg3 == args[1]
+//@   at-call readCommand).read@r.read(ctx [stdin-only-when-serverless] arg3 == "" && arg4 == "-" && r.server.serverless
+
+// Reading the process's own standard input is for the serverless mode only
+// (there the user is the owner of the process).
+//@ func (*readCommand).isInputFromPipe
+//@   assigns nothing
+//@   ensures [serverless-only] implies(result, r.server.serverless)
